@@ -2,6 +2,8 @@ from rules import shared as S
 
 DOC = {'explanation': 'C13 structural clauses (see DESIGN.md section 5)', 'decided': [], 'not_decided': []}
 
+WITNESSES = ['C13W1Fail', 'C13W1Twin']
+
 
 def rules(ctx):
     S.c13_rules(ctx)
